@@ -29,6 +29,9 @@ import (
 func init() { drivers["c08"] = c08 }
 
 var c08NameRx = regexp.MustCompile(`\(defun (\S+) `)
+var c08MacroRx = regexp.MustCompile(`\(defmacro (\S+) `)
+
+func id0(stim, variant int) int { return stim*100 + variant }
 
 func c08Rename(names []string, suffix string, texts ...string) []string {
 	sort.Slice(names, func(i, j int) bool { return len(names[i]) > len(names[j]) })
@@ -74,6 +77,12 @@ func c08(args []string) {
 				names = append(names, m[1])
 			}
 		}
+		mnames := []string{}
+		for _, d := range st.MacroSrc {
+			if m := c08MacroRx.FindStringSubmatch(d); m != nil {
+				mnames = append(mnames, m[1])
+			}
+		}
 		end := func(o h.Outcome, src string) {
 			if o.OK() {
 				out.Emit(N{"t": cur, "ev": "end", "v": c01Values(o.Val), "src": src})
@@ -86,8 +95,24 @@ func c08(args []string) {
 				continue // emitted with variant 0
 			}
 			suffix := fmt.Sprintf("-v%d", variant)
-			texts := c08Rename(names, suffix, append([]string{string(st.Defs), string(st.Ast), st.Src}, st.DefSrc...)...)
-			defs, ast, src, defsrc := texts[0], texts[1], texts[2], texts[3:]
+			texts := c08Rename(append(append([]string{}, names...), mnames...), suffix,
+				append(append([]string{string(st.Defs), string(st.Ast), st.Src}, st.DefSrc...), st.MacroSrc...)...)
+			defs, ast, src, defsrc := texts[0], texts[1], texts[2], texts[3:3+len(st.DefSrc)]
+			// the macros of the program (this variant's copies) are defined before anything else: a macro has to be known
+			// when a form that uses it is evaluated for the first time
+			macrosOK := true
+			for _, d := range texts[3+len(st.DefSrc):] {
+				if o := h.Eval(s, d); !o.OK() {
+					cur = id0(st.ID, variant)
+					out.Emit(N{"t": cur, "ev": "start", "defs": json.RawMessage(defs), "ast": json.RawMessage(ast), "variant": variant})
+					end(o, d)
+					macrosOK = false
+					break
+				}
+			}
+			if !macrosOK {
+				continue
+			}
 			start := func(id int) {
 				cur, budget = id, 4000
 				out.Emit(N{"t": id, "ev": "start", "defs": json.RawMessage(defs), "ast": json.RawMessage(ast), "variant": variant})
